@@ -30,7 +30,11 @@ def nested_family(p, n, rnd):
              # env-backed options inside nested repetitions: exponential backtracking before fix 8c7f6d6
              g.Seq(g.Rep(g.Alt(g.Opt("-b"), g.Rep(g.Alt(g.Arg("Y"), g.Opt("-b"))))), g.Rep(g.Alt(g.Rep(g.Opt("-o")), g.Rep(g.Opt("-e"))))),
              g.Seq(g.Rep(g.Seq(g.Seq(g.Alt(g.Arg("X"), g.Grp(["-a", "-b", "-o", "-e"], all_=True)), g.Alt(g.Grp(["-e", "-a"]), g.Grp(["-a", "-b", "-o", "-e"], all_=True))),
-                               g.Alt(g.Grp(["-a", "-b"]), g.Rep(g.Opt("-o"))))), g.Opt("-a"))]
+                               g.Alt(g.Grp(["-a", "-b"]), g.Rep(g.Opt("-o"))))), g.Opt("-a")),
+             # several single-option matchers in one repetition: the search must not explore every order of removing occurrences
+             g.Seq(g.Rep(g.Optional(g.Alt(g.Opt("-a"), g.Opt("-b"), g.Opt("-o")))), g.Arg("X")),
+             # a long flat sequence of optional groups: the traversals of Prepare must be linear in it
+             g.Seq(*([g.Optional(g.Opt("-a")), g.Optional(g.Opt("-b"))] * 20))]
     for e in fixed:
         out.append({"ast": e, "str": g.render(p, e)})
         seen.add(out[-1]["str"])
@@ -102,7 +106,7 @@ def run(tier, wd):
     fam = nested_family(p, 150 if q else 1500, rnd)
     envsets = [list(c) for n in range(5) for c in itertools.combinations(keys, n)]
     for s in fam:
-        lines = [[], ["x"], ["--"], ["-z"], ["x", "y", "x", "y", "x", "y", "x", "y"], ["x", "y"] * 6, ["-a", "-b", "-ab", "-ba", "-a"], ["--", "--", "-a"], ["-ov", "-o", "v", "x"]]
+        lines = [[], ["x"], ["--"], ["-z"], ["x", "y", "x", "y", "x", "y", "x", "y"], ["x", "y"] * 6, ["-a", "-b", "-ov"] * 7 + ["x", "y"], ["-a", "-b", "-ab", "-ba", "-a"], ["--", "--", "-a"], ["-ov", "-o", "v", "x"]]
         for _ in range(4 if q else 8):
             items = g.sample_items(p, s["ast"], rnd)
             if rnd.random() < 0.5:
